@@ -9,7 +9,6 @@ import I18n.Lemmas.CFmtRe
 namespace I18n.CFmtRe
 open I18n.Spec.Printf I18n.Spec.BraceRe I18n.ReKit
 open I18n.CFmt hiding St
-open I18n.Generated (CFmtRe.directiveRe)
 
 /-! ## `scanAll` iterates `scanItem` -/
 
@@ -85,19 +84,27 @@ theorem scanAll_fuel : ∀ (f1 f2 : Nat) (cs : List Char), cs.length ≤ f1 → 
         simp only
         rw [ih f2 rest (by omega) (by omega)]
 
-/-! ## the search loop -/
+/-! ## the search loop
 
-theorem findFrom_eq (db : CharDB) (fuel : Nat) (cs : List Char) (pos : Nat) :
-    findFrom db CFmtRe.directiveRe (fuel + 1) cs pos =
+`r` is any parse tree whose first match at every position is what `scanItem` reads (`hr`; for the live tree:
+`CFmtReLive.matchAt_live`). -/
+
+/-- "the first match of `r` is the scanner's step" -/
+def IsScanner (db : CharDB) (r : Re) : Prop :=
+  ∀ (cs : List Char) (pos : Nat),
+    matchAt db r cs pos = (scanItem cs).map (fun p => (⟨p.2, pos + p.1.render.length, itemCaps pos p.1⟩ : St))
+
+theorem findFrom_eq (db : CharDB) {r : Re} (hr : IsScanner db r) (fuel : Nat) (cs : List Char) (pos : Nat) :
+    findFrom db r (fuel + 1) cs pos =
       match scanItem cs with
       | some (it, rest) =>
-        ⟨pos, ⟨rest, pos + it.render.length, itemCaps pos it⟩⟩ :: findFrom db CFmtRe.directiveRe fuel rest (pos + it.render.length)
+        ⟨pos, ⟨rest, pos + it.render.length, itemCaps pos it⟩⟩ :: findFrom db r fuel rest (pos + it.render.length)
       | none =>
         match cs with
         | [] => []
-        | _ :: t => findFrom db CFmtRe.directiveRe fuel t (pos + 1) := by
+        | _ :: t => findFrom db r fuel t (pos + 1) := by
   simp only [findFrom]
-  rw [matchAt_live]
+  rw [hr]
   cases h : scanItem cs with
   | none => rfl
   | some p =>
@@ -107,9 +114,9 @@ theorem findFrom_eq (db : CharDB) (fuel : Nat) (cs : List Char) (pos : Nat) :
     rw [if_pos (by omega)]
 
 /-- the pattern cannot match the empty string -/
-theorem match_nonempty (db : CharDB) {cs : List Char} {pos : Nat} {st : St}
-    (h : matchAt db CFmtRe.directiveRe cs pos = some st) : pos < st.pos := by
-  rw [matchAt_live] at h
+theorem match_nonempty (db : CharDB) {r : Re} (hr : IsScanner db r) {cs : List Char} {pos : Nat} {st : St}
+    (h : matchAt db r cs pos = some st) : pos < st.pos := by
+  rw [hr] at h
   cases hs : scanItem cs with
   | none => simp [hs] at h
   | some p =>
@@ -119,14 +126,14 @@ theorem match_nonempty (db : CharDB) {cs : List Char} {pos : Nat} {st : St}
     have := (scanItem_sound hs).2
     simp only; omega
 
-theorem findFrom_start (db : CharDB) : ∀ (fuel : Nat) (cs : List Char) (pos : Nat),
-    ∀ m ∈ findFrom db CFmtRe.directiveRe fuel cs pos, pos ≤ m.start := by
+theorem findFrom_start (db : CharDB) {r : Re} (hr : IsScanner db r) : ∀ (fuel : Nat) (cs : List Char) (pos : Nat),
+    ∀ m ∈ findFrom db r fuel cs pos, pos ≤ m.start := by
   intro fuel
   induction fuel with
   | zero => intro cs pos m hm; simp [findFrom] at hm
   | succ fuel ih =>
     intro cs pos m hm
-    rw [findFrom_eq] at hm
+    rw [findFrom_eq db hr] at hm
     cases h : scanItem cs with
     | some p =>
       obtain ⟨it, rest⟩ := p
@@ -415,18 +422,18 @@ theorem decodeMatch_item {s : List Char} {pos : Nat} {cs : List Char} {it : Item
     rw [hs, e]
     simp [Item.render, Directive.render, Directive.renderTail]
 
-theorem walk_findFrom (db : CharDB) (s : List Char) : ∀ (fuel : Nat) (cs : List Char) (pos : Nat),
+theorem walk_findFrom (db : CharDB) {r : Re} (hr : IsScanner db r) (s : List Char) : ∀ (fuel : Nat) (cs : List Char) (pos : Nat),
     cs.length < fuel → s.drop pos = cs → pos + cs.length = s.length →
-    (walk s (findFrom db CFmtRe.directiveRe fuel cs pos) pos).1 = (scanAll cs.length cs).1 ∧
-    (walk s (findFrom db CFmtRe.directiveRe fuel cs pos) pos).2.1 = (scanAll cs.length cs).2 ∧
-    ((walk s (findFrom db CFmtRe.directiveRe fuel cs pos) pos).2.1 = false →
-      (s.drop (walk s (findFrom db CFmtRe.directiveRe fuel cs pos) pos).2.2).head? = some '%') := by
+    (walk s (findFrom db r fuel cs pos) pos).1 = (scanAll cs.length cs).1 ∧
+    (walk s (findFrom db r fuel cs pos) pos).2.1 = (scanAll cs.length cs).2 ∧
+    ((walk s (findFrom db r fuel cs pos) pos).2.1 = false →
+      (s.drop (walk s (findFrom db r fuel cs pos) pos).2.2).head? = some '%') := by
   intro fuel
   induction fuel with
   | zero => intro cs pos h; exact absurd h (Nat.not_lt_zero _)
   | succ fuel ih =>
     intro cs pos hf hs hl
-    rw [findFrom_eq]
+    rw [findFrom_eq db hr]
     cases h : scanItem cs with
     | some p =>
       obtain ⟨it, rest⟩ := p
@@ -457,30 +464,17 @@ theorem walk_findFrom (db : CharDB) (s : List Char) : ∀ (fuel : Nat) (cs : Lis
         have hne : (pos == s.length) = false := by
           simp only [List.length_cons] at hl
           simp only [beq_eq_false_iff_ne]; omega
-        cases hL : findFrom db CFmtRe.directiveRe fuel t (pos + 1) with
+        cases hL : findFrom db r fuel t (pos + 1) with
         | nil => simp [walk, hne, hs]
         | cons m ms =>
-          have hm := findFrom_start db fuel t (pos + 1) m (by rw [hL]; exact List.mem_cons_self)
+          have hm := findFrom_start db hr fuel t (pos + 1) m (by rw [hL]; exact List.mem_cons_self)
           have : (m.start != pos) = true := by simp only [bne_iff_ne]; omega
           simp [walk, this, hs]
 
 /-- `FormatString.__init__`'s loop over `_directive_re.finditer(s)` -/
-theorem walk_finditer (db : CharDB) (s : List Char) :
-    (walk s (finditer db s) 0).1 = (scan s).1 ∧ (walk s (finditer db s) 0).2.1 = (scan s).2 ∧
-    ((walk s (finditer db s) 0).2.1 = false → (s.drop (walk s (finditer db s) 0).2.2).head? = some '%') :=
-  walk_findFrom db s (s.length + 1) s 0 (Nat.lt_succ_self _) rfl (by simp)
-
-/-- `_printable_prefix(s[last_pos:])` cannot fail where `Error` is raised: the text there starts with `%`, which the
-    pattern `[ -~]+` matches -/
-theorem printable_prefix_matches (db : CharDB) (t : List Char) :
-    (matchAt db I18n.Generated.CFmtRe.printablePrefixRe ('%' :: t) 0).isSome = true := by
-  have e : I18n.Generated.CFmtRe.printablePrefixRe = .plus (.cls false [.range 32 126]) := by decide +kernel
-  rw [e]
-  unfold matchAt
-  rw [bt_plus, bt_seq, bt_cls_cons]
-  have : clsTest db false [.range 32 126] '%' = true := by simp [clsTest, ClsItem.test]
-  rw [if_pos this]
-  rw [star_cls db false _ (fun c => clsTest db false [.range 32 126] c) (fun _ => rfl) some (by intro _ _ _ _ _ _; simp)]
-  rfl
+theorem walk_finditer (db : CharDB) {r : Re} (hr : IsScanner db r) (s : List Char) :
+    (walk s (finditer db r s) 0).1 = (scan s).1 ∧ (walk s (finditer db r s) 0).2.1 = (scan s).2 ∧
+    ((walk s (finditer db r s) 0).2.1 = false → (s.drop (walk s (finditer db r s) 0).2.2).head? = some '%') :=
+  walk_findFrom db hr s (s.length + 1) s 0 (Nat.lt_succ_self _) rfl (by simp)
 
 end I18n.CFmtRe
